@@ -27,6 +27,7 @@ META = {
     ],
     "floor_evaluations": {"quick": 5000, "thorough": 50000},
     "floor_nontrivial": {"quick": 1000, "thorough": 10000},
+    "threads": 3,
     "anchors": ["func_adl/ast/ast_hash.py"],
 }
 
